@@ -861,8 +861,10 @@ func (w *World) RedefineCall(target *argmapper.Func, args []argmapper.Arg) (rf *
 		org := w.Ledger[in.Tok]
 		for j, other := range fresh {
 			// (judged on the input as the redefined function DECLARES it: the
-			// fresh value given for it may carry an extra subtype label)
-			if other.Tok != in.Tok && RPlus(declared[j], in.L) {
+			// fresh value given for it may carry an extra subtype label -- and
+			// then travels on under the declared label of its OWN input too:
+			// the wrapper cannot see the label its caller used)
+			if (other.Tok != in.Tok || declared[j] != in.L) && RPlus(declared[j], in.L) {
 				alt := declared[j]
 				alt.Dyn = in.L.Type
 				org.Alt = append(org.Alt, alt)
